@@ -9,6 +9,18 @@ func init() {
 		return emitCodeArea(repo, "CodeCaco", []codeTarget{
 			{dir: "caco3", name: "makeRelPath"},
 			{dir: "caco3", name: "makePath"},
+			// C10: the stat comparison that decides whether a source file is unchanged
+			{dir: "caco3", name: "sameFileStat", cfg: transCfg{params: []pspec{
+				{src: "newFileStat(env, stat.Name, stat.Type)", name: "cur_err", typ: "(nonnil?,error)"},
+				{src: "cur.Size", name: "cur_Size", typ: "int64"},
+				{src: "cur.ModTimestamp", name: "cur_ModTimestamp", typ: "int64"},
+				{src: "cur.Mode", name: "cur_Mode", typ: "uint32"},
+				{src: "cur.Symlink", name: "cur_Symlink", typ: "string"},
+				{src: "stat.Size", name: "stat_Size", typ: "int64"},
+				{src: "stat.ModTimestamp", name: "stat_ModTimestamp", typ: "int64"},
+				{src: "stat.Mode", name: "stat_Mode", typ: "uint32"},
+				{src: "stat.Symlink", name: "stat_Symlink", typ: "string"},
+			}}},
 		})
 	})
 	register("CodeKv", func(repo string) (string, error) {
